@@ -378,6 +378,144 @@ def ctl_model(out, prop, tier, seed):
 
 
 # ------------------------------------------------------------------------------------------------
+# CtlLoop (spec/CtlLoop.tla): the wrapper's message loop in fine-grained steps - source-task operations interleaved with the
+# walk of a steering broadcast over the source handles (a wrapper dropped while the loop holds its handle, ...), replayed
+# on the real TimeSyncControllerWrapper<recording mock> whose run() executes on its own thread
+# ------------------------------------------------------------------------------------------------
+LOOP_CFGS = {   # constants of spec/{MC,Gen}_CtlLoop_<name>.cfg that the harness needs
+    "Mix":    dict(N=2, OneWay=[1]),     # one-way + two-way source, 1 measurement each, usable TRUE/FALSE, timer updates, <=2 queued
+    "Two":    dict(N=2, OneWay=[]),      # two two-way sources (one handle list), 2 measurements each, <=2 queued
+    "TwoBig": dict(N=2, OneWay=[]),      # ... with set_usable
+    "MixBig": dict(N=2, OneWay=[1]),     # Mix with 2 measurements each, <=3 queued
+    "Three":  dict(N=3, OneWay=[1]),     # one one-way and two two-way sources
+}
+LOOP_QUICK = ["Mix", "Two"]
+LOOP_THOROUGH = ["Mix", "Two", "TwoBig", "MixBig", "Three"]
+
+
+class CtlLoop(sm.SM):
+    module = "CtlLoop"
+    mc_module = "MC_CtlLoop"
+    crate = CRATE
+    test = "algorithm::verif_hook::ctlloop::verif_ctlloop"
+
+    def configs(self, prop, tier):
+        return LOOP_QUICK if tier == "quick" else LOOP_THOROUGH
+
+    def harness_cfg(self, cfgname, init_state):
+        return LOOP_CFGS[cfgname]
+
+    def act_sig(self, a):
+        t = a["t"]
+        if t == "Usable":
+            return "Usable(%d,%s)" % (a["i"], a["b"])
+        if t == "Recv":
+            return "Recv(steer=%s,arm=%s)" % (a["steer"], a["arm"])
+        if "i" in a:
+            return "%s(%d)" % (t, a["i"])
+        return t
+
+    def attribute(self, out, prop, cfgname, rec, fail, acts, how):
+        if fail.get("tool"):
+            # the harness could not complete the step (a wait for the loop thread timed out): never a violation
+            raise vf.ToolError("CtlLoop/%s: harness could not run step %s of %s: %s" % (
+                cfgname, fail.get("step"), [self.act_sig(a) for a in acts][-8:], fail["tool"]))
+        fields = set(fail["fields"])
+        cones = rec["cones"]
+        hit = [p for p, c in cones.items() if fields & set(c)]
+        held = "+held" if rec.get("held") else ""
+        sig = "CtlLoop:%s:%s%s:%s" % (cfgname, rec.get("ck", rec["act"]["t"]), held, ",".join(sorted(fields & set(cones.get(prop, [])))))
+        detail = {"how": how, "cfg": cfgname, "constants": LOOP_CFGS.get(cfgname), "history": [self.act_sig(a) for a in acts],
+                  "pre": rec.get("pre"), "expected": {"post": rec["post"], "out": rec["out"]}, "observed": fail.get("observed"),
+                  "panic": fail.get("panic"), "differing": sorted(fields), "attributed_to": sorted(hit)}
+        if prop in hit:
+            out.violation(sig, detail)
+        else:
+            out.divergences.append(detail)
+            out.notes.append("divergence outside %s's cone (CtlLoop/%s, fields %s)" % (prop, cfgname, sorted(fields)))
+
+
+def loop_stage(out, prop, tier, seed):
+    """(M)+(G) for the bounded configurations of MC_CtlLoop; counts what the fine-grained model adds over ClockCtl."""
+    c = CtlLoop()
+    for cfgname in c.configs(prop, tier):
+        import time
+        wd = vf.workdir("CtlLoop_%s" % cfgname)
+        t0 = time.time()
+        g, mc, inits = vf.collect_graph("MC_CtlLoop", "Gen_CtlLoop_%s.cfg" % cfgname, workers=8, timeout=1500)
+        t1 = time.time()
+        if mc.violated:
+            raise vf.ToolError("model CtlLoop/%s violates %s at design level:\n%s" % (cfgname, mc.violated, mc.error_trace[:3000]))
+        if not inits:
+            raise vf.ToolError("generator printed no INIT state")
+        want = set(i for i, e in enumerate(g.edges) if e[2]["cones"].get(prop))
+        # vacuity: the situations this stage exists for must be in the model
+        held = [i for i in want if g.edges[i][2].get("held")]
+        mid = [i for i in want if g.edges[i][2]["pre"]["pc"] != "idle" and g.edges[i][2]["act"]["t"] in ("Meas", "Usable", "Drop", "Add")]
+        timer = [i for i in want if g.edges[i][2]["out"]["tu"]]
+        if not held or not mid or (LOOP_TIMER[cfgname] and not timer):
+            raise vf.ToolError("vacuous: CtlLoop/%s has %d drops of a held handle, %d source operations during a broadcast, %d timer updates"
+                               % (cfgname, len(held), len(mid), len(timer)))
+        rank = {i: k for k, i in enumerate(sorted(want, key=lambda i: vf.key([g.edges[i][2]["pre"], g.edges[i][2]["act"]])))}
+        for u in list(g.out):
+            g.out[u].sort(key=lambda i: vf.key(g.edges[i][2]["act"]))
+        walks = fast_tours(g, inits[0], sorted(want, key=lambda i: rank[i]), 80, random.Random(seed))
+        wf = os.path.join(wd, "walks_%s.ndjson" % prop)
+        rf = os.path.join(wd, "results_%s.ndjson" % prop)
+        vf.write_ndjson(wf, [{"id": n, "walk": [{"act": g.edges[e][2]["act"], "post": g.edges[e][2]["post"], "out": g.edges[e][2]["out"]} for e in w]}
+                             for n, w in enumerate(walks)])
+        t2 = time.time()
+        vf.run_harness(CRATE, c.test, {"mode": "replay", "cfg": LOOP_CFGS[cfgname], "input": wf, "output": rf, "seed": seed}, timeout=3000)
+        t3 = time.time()
+        results = vf.read_ndjson(rf)
+        if len(results) != len(walks):
+            raise vf.ToolError("harness returned %d results for %d walks" % (len(results), len(walks)))
+        steps, covered = 0, set()
+        for r in results:
+            w = walks[r["id"]]
+            steps += r["steps_run"]
+            upto = r["steps_run"] if r["fail"] is None else r["fail"]["step"]
+            covered.update(w[:upto])
+            if r["fail"] is not None:
+                f = r["fail"]
+                c.attribute(out, prop, cfgname, g.edges[w[f["step"]]][2], f, [g.edges[x][2]["act"] for x in w[:f["step"] + 1]], "replay")
+        out.add("states", mc.distinct)
+        out.add("transitions", len(g.edges))
+        out.add("replayed_steps", steps)
+        out.add("replayed_walks", len(walks))
+        out.add("model_transitions_constrained_by_property", len(want))
+        out.add("model_transitions_confirmed_on_impl", len(covered & want))
+        out.add("loop_drops_of_a_handle_held_by_the_loop_confirmed", len(covered & set(held)))
+        out.add("loop_source_operations_during_a_broadcast_confirmed", len(covered & set(mid)))
+        out.add("loop_timer_updates_confirmed", len(covered & set(timer)))
+        vf.log("CtlLoop/%s: %d states %d edges; tlc %.0fs tour %.0fs (%d walks) replay %.0fs (%d steps); %d/%d drops of a held handle confirmed" % (
+            cfgname, mc.distinct, len(g.edges), t1 - t0, t2 - t1, len(walks), t3 - t2, steps, len(covered & set(held)), len(held)))
+        hw = [k for k in range(len(walks)) if set(walks[k]) & set(held)]
+        if hw:
+            w = walks[hw[0]]
+            cut = next(n for n, e in enumerate(w) if e in set(held)) + 1
+            out.sample({"cfg": "CtlLoop/" + cfgname, "walk_prefix": [c.act_sig(g.edges[e][2]["act"]) for e in w[:cut]][-10:],
+                        "expected_channel_after_last": g.edges[w[cut - 1]][2]["post"]["chan"]})
+    if tier == "thorough":
+        loop_fine_model(out)
+
+
+def loop_fine_model(out):
+    """(M) only: MC_CtlLoopFine splits 'release the handle / upgrade the next one' into two steps with source-task operations in
+    between (not reproducible on the real loop); the same step property and invariant must hold there."""
+    for cfg in ("Mix", "Three"):
+        res = vf.run_tlc("MC_CtlLoopFine", "MC_CtlLoopFine_%s.cfg" % cfg, workers=8, timeout=3000, coverage=False, tags=())
+        if res.violated:
+            raise vf.ToolError("model CtlLoopFine/%s violates %s at design level:\n%s" % (cfg, res.violated, res.error_trace[:3000]))
+        out.add("states", res.distinct)
+        out.add("transitions", res.generated)
+        out.add("loop_finer_model_states_checked", res.distinct)
+
+
+LOOP_TIMER = {"Mix": True, "Two": False, "TwoBig": False, "MixBig": True, "Three": False}
+
+
+# ------------------------------------------------------------------------------------------------
 # beyond the exhaustive bound: TLC -simulate on a wider configuration (spec/Sim_ClockCtl.tla), every simulated
 # behaviour replayed on the real wrapper
 # ------------------------------------------------------------------------------------------------
@@ -546,6 +684,13 @@ def run(prop, tier, seed):
                                 "transition tour replayed through the real TimeSyncControllerWrapper / KalmanClockController / source "
                                 "controllers with a recording clock; state projection and clock calls compared after every step")
         ctl_model(out, prop, tier, seed)
+        if prop == "C37":
+            out.coverage["rule"] += ("; every transition of the bounded CtlLoop model (fine-grained message loop: source-task operations "
+                                     "while the loop is inside handle_message of a source during a broadcast) is covered by a transition "
+                                     "tour replayed on the real wrapper / source wrappers with run() on its own thread; channel, controller "
+                                     "calls and controller state compared after every step")
+            out.assumptions += ["CtlLoop stage: inner controller mocked (contract of KalmanClockController); timer update due as soon as the loop is idle"]
+            loop_stage(out, prop, tier, seed)
         out.coverage.setdefault("traces_validated_against_impl", 0)
     elif prop == "C06":
         out.coverage["rule"] = ("TLC enumerates measurement-history shapes over adversarial value classes (8 initial samples of a base "
@@ -580,13 +725,26 @@ MANIFEST = {
                      "against the configured bound, desired_freq against the slew maximum.",
                 note="single-source configurations (frequency estimate of an initial-phase source is 0); second-order term of "
                      "(1+f)(1+c)-1 below the rounding of the comparison"),
-    "C37": dict(level="model_checking", technique=_T, design_ref="6.3, 7 (C37)", engine="tlc+replay",
-                text="All interleavings of source-task operations (measure, set_usable, drop, re-add) with single iterations of the wrapper's "
-                     "message loop over an explicit channel; replayed on the real run() future polled once per delivered message; "
-                     "controller's source map, usable flags, snapshots, used sources and clock calls compared after every step; forged "
-                     "data for removed ids.",
-                note="bounded: 2 (thorough 3) source slots, <=2 (3) queued messages; the harness relays messages one at a time between the "
-                     "sources' channel and the loop's channel"),
+    "C37": dict(level="model_checking", design_ref="6.3, 7 (C37)", engine="tlc+replay",
+                technique=_T + "; plus spec/CtlLoop.tla: the wrapper's message loop in fine-grained steps (resting points: select! and "
+                          "inside handle_message of each source handle visited by a steering broadcast), model-checked with TLC and replayed "
+                          "on the real TimeSyncControllerWrapper<recording mock controller> and the real source wrappers with run() "
+                          "executing on a thread of its own, gated inside every handle_message",
+                text="(1) ClockCtl: all interleavings of source-task operations (measure, set_usable, drop, re-add) with single iterations "
+                     "of the wrapper's message loop over an explicit channel; replayed on the real run() future polled once per delivered "
+                     "message; controller's source map, usable flags, snapshots, used sources and clock calls compared after every step; "
+                     "forged data for removed ids. (2) CtlLoop: the same operations interleaved with the STEPS of one iteration - while the loop "
+                     "is inside handle_message of a source during the broadcast of a measurement or timer update, sources are dropped (also "
+                     "the one whose upgraded handle the loop holds), measure, report usability, are added; every drop enqueues exactly one "
+                     "removal notice in every loop phase, as the last message of its handle; removal unregisters; measurements reach the "
+                     "controller in the order produced; the usable flag is the last one reported; at rest registered = held; channel, "
+                     "controller calls and controller state compared after every step.",
+                note="bounded: ClockCtl 2 (thorough 3) source slots, <=2 (3) queued messages, the harness relays messages one at a time "
+                     "between the sources' channel and the loop's channel; CtlLoop 2 (thorough 3) slots of both kinds, <=2 measurements per "
+                     "handle, <=2 (3) queued messages, inner controller mocked with the contract of KalmanClockController (the real one is "
+                     "covered by ClockCtl), a requested timer update fires as soon as the loop is idle, the window between releasing "
+                     "one handle and upgrading the next is not interruptible by the harness (operations there are equivalent to "
+                     "operations just before the release)"),
     "C06": dict(level="exploration", technique="TLA+ module spec/FilterShapes.tla: TLC enumerates adversarial measurement-history shapes over "
                 "value classes and evaluates the finiteness / non-negativity predicate on the number classes logged by the harness, which "
                 "replays every shape on the real KalmanSourceController + KalmanClockController with steering fed back",
